@@ -28,6 +28,11 @@ class StmtMixin:
         c = a.pc
         m = State()
         m.pc = z3.simplify(zor(a.pc, b.pc))
+        for side, other in ((a, b), (b, a)):
+            for k in side.vars:
+                # a `defer` that one path never reached is simply not armed on that path
+                if isinstance(k, tuple) and k[0] == "defer" and k not in other.vars:
+                    other.vars[k] = FALSE
         for k, va in a.vars.items():
             if k in b.vars:
                 vb = b.vars[k]
@@ -445,7 +450,16 @@ class StmtMixin:
         if acc is None:
             acc, regions, fields = set(), [], set()
         if isinstance(node, list):
-            for x in node:
+            items = node
+            if items and isinstance(items[-1], dict) and items[-1].get("k") == "ReturnStmt":
+                # a statement list that always ends in `return` leaves the loop: what it does after its last
+                # possible `continue`/`break` never reaches the loop head again
+                last_branch = -1
+                for k_, x in enumerate(items):
+                    if self.contains_branch(x):
+                        last_branch = k_
+                items = items[:last_branch + 1]
+            for x in items:
                 self.assigned_in(x, acc, regions, fields, depth)
             return acc, regions, fields
         if not isinstance(node, dict):
@@ -470,6 +484,17 @@ class StmtMixin:
             if isinstance(v, (dict, list)):
                 self.assigned_in(v, acc, regions, fields, depth)
         return acc, regions, fields
+
+    def contains_branch(self, node):
+        if isinstance(node, list):
+            return any(self.contains_branch(x) for x in node)
+        if not isinstance(node, dict):
+            return False
+        if node.get("k") == "BranchStmt":
+            return True
+        if node.get("k") == "FuncLit":
+            return False
+        return any(self.contains_branch(v) for k_, v in node.items() if isinstance(v, (dict, list)) and k_ not in ("t", "cv", "sel"))
 
     def _lhs_effect(self, l, acc, regions, fields):
         k = l["k"]
